@@ -78,6 +78,15 @@ class _Frozen:
         self.sflags = frozenset(session_flags.flags.items())
 
 
+class _RenumberedFetchResponse(FetchResponse):
+    # Follows EXPUNGE responses, so its sequence number uses the new numbering
+    # and it must not be merged into a FETCH response written before them.
+
+    @property
+    def merge_key(self) -> int:
+        raise TypeError()
+
+
 class SynchronizedMessages:
     """Manages the message data that has been synchronized with the client."""
 
@@ -423,7 +432,9 @@ class SelectedMailbox:
         session_flags = self._session_flags
         expunged_uids = before.uids - after.uids
         new_uids = after.uids - before.uids
+        fetch_cls: type[FetchResponse] = FetchResponse
         if not self._hide_expunged and expunged_uids:
+            fetch_cls = _RenumberedFetchResponse
             for uid in sorted(expunged_uids, reverse=True):
                 yield ExpungeResponse(before.seqs_cache[uid])
         if new_uids:
@@ -443,4 +454,4 @@ class SelectedMailbox:
                 FetchValue.of(_flags_attr, List(msg_flags, sort=True))]
             if with_uid:
                 fetch_data.append(FetchValue.of(_uid_attr, Number(uid)))
-            yield FetchResponse(seq, fetch_data)
+            yield fetch_cls(seq, fetch_data)
